@@ -322,7 +322,7 @@ MEMBER_DEVS = ("D08", "D09", "D10", "D11", "D12", "D13", "D14", "D23a", "D23c", 
 
 def check_C02(tier, replay=None):
     R = Result("C02", tier)
-    slices = ("builtins", "positions", "nested", "attrs", "pairs", "recursive", "toplevel") + (("positions_all", "triples") if tier == "thorough" else ())
+    slices = ("builtins", "positions", "nested", "attrs", "pairs", "recursive", "toplevel", "homonym") + (("positions_all", "triples") if tier == "thorough" else ())
     runs = [("MC_C02_" + s, {"Slice": '"%s"' % s}) for s in slices]
     std_flow(R, "MC_C02", runs, "Trace_Out", {"P": '"C02"'}, MEMBER_DEVS, ["Agreement", "Emit"])
     # second observation (the property's observe_at): typed struct literals synthesised from Schema!ExpFields must
@@ -415,9 +415,16 @@ def check_C12(tier, replay=None):
     cases += corpus_cases("C12", "c12path")
     for i, cs in enumerate(cases):
         cs["id"] = i + 1
-        cs["nproc"] = 6 if tier == "quick" else 24
+        cs["nproc"] = 6 if tier == "quick" else 48
     R.cases, R.vocab = cases, vocab
     traces, crashed = z.run_harness(vocab, cases, "C12", shards=min(len(cases), 8), per_case_timeout=600)
+    if tier != "quick":
+        # the schema sets of MC_CR (several namespaces, extensions across files, header parts, restricted types) as well
+        cr_vocab, cr, _ = cr_cases("quick")()
+        cr = [dict(c, prop="C12", drv="c12", nproc=12, id=len(cases) + i + 1) for i, c in enumerate(cr)]
+        t2, _ = z.run_harness(cr_vocab, cr, "C12_cr", shards=min(len(cr), 8), per_case_timeout=600)
+        traces += t2
+        R.cases = cases + cr
     tcfg = cfg("TraceSpec", {"Dev": devs}, post="Accepted")
     viol, known, stale, drift = trace_run(R, "Trace_C12", tcfg, traces, "T_C12")
     R.viol = viol
@@ -469,10 +476,14 @@ def check_C13(tier, replay=None):
                 if fi > 1 and m["op"] != "content" and rnd.random() > 0.15:
                     continue       # the second file mostly stays as it is
                 add(b, [dict(m, file=fi)], b["label"] + "/" + m["op"])
-        npairs = 400 if tier == "quick" else 6000
+        npairs = 400 if tier == "quick" else 30000
         for _ in range(npairs):
             m1, m2 = rnd.choice(muts), rnd.choice(muts)
             add(b, [dict(m1, file=1), dict(m2, file=rnd.randint(1, nfiles(b)))], b["label"] + "/pair")
+        # thorough: three and four mutations at once (mutations interact: a retargeted QName on a duplicated element ...)
+        for k in ((3, 15000), (4, 5000)) if tier != "quick" else ():
+            for _ in range(k[1]):
+                add(b, [dict(rnd.choice(muts), file=rnd.randint(1, nfiles(b))) for _ in range(k[0])], b["label"] + "/x%d" % k[0])
     # malformed inputs whose WriterError variant the model names (Robust!ErrorOf): matched as drift
     errcases = [p for t, p in tagged if t == "ERRCASE"]
     for ec in errcases:
@@ -481,7 +492,7 @@ def check_C13(tier, replay=None):
             add(b, [ec["mut"]], "errclass/" + ec["class"])
             cases[-1]["expect_err"] = ec["err"]
     # the repository's real schemas, mutated
-    per_doc = 40 if tier == "quick" else 600
+    per_doc = 40 if tier == "quick" else 3000
     for cc in corpus_cases("C13", "robust"):
         if tier == "quick" and "exchange" in cc["path"]:
             per = 4
@@ -647,7 +658,7 @@ def check_C01(tier, replay=None):
 
 
 def check_C03(tier, replay=None):
-    return check_CR("C03", tier, "for every struct of every MC_CR case a value is built under the plans min / max / mix (optional members absent/present, repeated 0/1/3, leaves at their extremes or needing escaping), serialised by yaserde in a compiled driver, parsed namespace-aware, and TLC compares the infoset with Wire!ExpInfoset (names, namespaces, order, occurrence, lexical forms, prefix bindings)", CR_ASSUME)
+    return check_CR("C03", tier, "for every struct of every MC_CR case a value is built under the plans min / max / mix (optional members absent/present, repeated 0/1/3, leaves at their extremes or needing escaping), serialised by yaserde in a compiled driver, parsed namespace-aware, and TLC compares the infoset with Wire!ExpInfoset (names, namespaces, order, occurrence, lexical forms, prefix bindings); when the image has libxml2's xmllint every serialised document of a schema-only case is also validated against the concrete schema files, and TLC demands acceptance for every component that Wire!Plain says the struct can represent exactly (no choice, no optional or repeated group) - an XSD implementation that shares nothing with the model", CR_ASSUME)
 
 
 def check_C04(tier, replay=None):
